@@ -8,7 +8,7 @@ idxp = os.path.join(V, "selftest", "index.json")
 idx = json.load(open(idxp))
 idx["mutants"] = [m for m in idx["mutants"] if not m["name"].startswith("eqr-")]
 patches = {}
-for d in ("eqround1", "eqround2", "ftround1"):
+for d in ("eqround1", "eqround2", "ftround1", "eqround3", "eqround4"):
     for p in glob.glob(os.path.join(V, "selftest", d, "*.diff")):
         patches[os.path.basename(p).split("-")[0]] = os.path.join(d, os.path.basename(p))
 n = 0
